@@ -198,3 +198,35 @@ def specToken (k : Kind) (s : Bytes) : Option Expect :=
     else some ⟨best, .incompleteCompoundHeader, 0, best⟩
 
 end ScpiVerif.Spec
+
+namespace ScpiVerif.Spec
+open ScpiVerif.Lexer (Bytes TokType Token)
+
+/-- declarative meaning of a regular expression -/
+inductive Matches : Re → Bytes → Prop where
+  | eps : Matches .eps []
+  | chr (p : UInt8 → Bool) (b : UInt8) : p b = true → Matches (.chr p) [b]
+  | seq {a b : Re} {s t : Bytes} : Matches a s → Matches b t → Matches (.seq a b) (s ++ t)
+  | altL {a b : Re} {s : Bytes} : Matches a s → Matches (.alt a b) s
+  | altR {a b : Re} {s : Bytes} : Matches b s → Matches (.alt a b) s
+  | starNil {a : Re} : Matches (.star a) []
+  | starCons {a : Re} {s t : Bytes} : Matches a s → Matches (.star a) t → Matches (.star a) (s ++ t)
+
+/-- `n` is the length of the longest prefix of `s` that is in the language `L` -/
+def IsLongest (L : Bytes → Prop) (s : Bytes) (n : Nat) : Prop :=
+  n ≤ s.length ∧ L (s.take n) ∧ ∀ m, n < m → m ≤ s.length → ¬ L (s.take m)
+
+/-- What it means for a recogniser result `(new position, token, return value)` obtained at
+position `pos` of `buf` to agree with the token specification of kind `k`:
+* if the specification finds a token at `buf[pos..]`: exactly its bytes are consumed, the return
+  value is their number, and type / extent / length describe it (payload for #H/#Q/#B and blocks);
+* otherwise nothing is reported (return 0, type UNKNOWN, length 0) and the cursor is where it was —
+  except for a definite-length block whose bytes have not all arrived, which swallows the input. -/
+def Agrees (k : Kind) (buf : Bytes) (pos : Nat) (r : Nat × Token × Int) : Prop :=
+  match specToken k (buf.drop pos) with
+  | some e => r.1 = pos + e.consumed ∧ r.2.2 = e.consumed ∧ r.2.1 = ⟨e.type, pos + e.payloadOff, e.payloadLen⟩ ∧
+              pos + e.consumed ≤ buf.length
+  | none => r.2.2 = 0 ∧ r.2.1.type = .unknown ∧ r.2.1.len = 0 ∧
+            r.1 = (if k = .block ∧ specBlock (buf.drop pos) = .incomplete then buf.length else pos)
+
+end ScpiVerif.Spec
